@@ -198,10 +198,10 @@ func init() {
 		Post:  mergeSeqEvidence("C19"),
 		Level: "model_checking",
 		Rule: "all interleavings (every synchronisation operation and every write to a field / element / pointee of the instrumented kmipserver package is a scheduling point) of 2-3 concurrent first requests " +
-			"through one freshly built executor whose stages yield; each request's own trace must be the reference trace. " + boundingNote,
+			"through one freshly built executor whose stages yield, and of 2-3 concurrent callers through one kmipclient.Client with yielding middlewares over a real (in-memory) connection; each request's own trace must be the reference trace, and on the client the response must be the caller's own and the transport must be reached exactly once per continuation call. " + boundingNote,
 		Assumptions: []string{"reads of plain shared memory are not scheduling points (only writes are)"},
 		Keep:        hasPrefix("fail:middleware-chain", "panic:"),
-		Quick:       cat(pb(100, B{{1, 0}, {2, 0}}, "mw-conc-2x2", "mw-conc-2x2-retry"), pb(100, B{{1, 0}}, "mw-conc-2x3", "mw-conc-3x2")),
-		Thorough:    cat(pb(1500, B{{2, 0}, {3, 0}}, "mw-conc-2x2", "mw-conc-2x2-retry", "mw-conc-2x3"), pb(1500, B{{2, 0}}, "mw-conc-3x2")),
+		Quick:       cat(pb(100, B{{1, 0}, {2, 0}}, "mw-conc-2x2", "mw-conc-2x2-retry"), pb(100, B{{1, 0}}, "mw-conc-2x3", "mw-conc-3x2"), db(100, B{{1, 0}, {2, 0}}, "cmw-conc-2x2", "cmw-conc-2x2-retry", "cmw-conc-3x1")),
+		Thorough:    cat(pb(1500, B{{2, 0}, {3, 0}}, "mw-conc-2x2", "mw-conc-2x2-retry", "mw-conc-2x3"), pb(1500, B{{2, 0}}, "mw-conc-3x2"), db(1500, B{{3, 0}, {4, 0}}, "cmw-conc-2x2", "cmw-conc-2x2-retry", "cmw-conc-3x1"), pb(1500, B{{0, 0}, {1, 0}}, "cmw-conc-2x2", "cmw-conc-2x2-retry")),
 	}
 }
